@@ -178,6 +178,8 @@ struct Outcome {
   rescore_unordered: bool,
   /// rescored request where groups are first seen in another order than their representatives rank
   rescore_first_seen_differs: bool,
+  /// some group's other members are ranked differently by the request sort and the inner sort
+  orders_disagree: bool,
 }
 
 fn sort_key(v: &Value) -> String {
@@ -248,8 +250,16 @@ fn judge(c: &Case, ri: &Ref, exact: bool) -> Result<Outcome, Fail> {
     expected.push((g.clone(), m[0].clone(), window(&others)));
   }
   let full = c.limit >= c.n;
-  let mut out = Outcome { groups: obs.len(), collapsed_away: 0, inner_total: obs.iter().map(|o| o.2.len()).sum(), tie_divergence: false, total_groups_short: false, rescore_unordered: false, rescore_first_seen_differs: false };
+  let mut out = Outcome { groups: obs.len(), collapsed_away: 0, inner_total: obs.iter().map(|o| o.2.len()).sum(), tie_divergence: false, total_groups_short: false, rescore_unordered: false, rescore_first_seen_differs: false, orders_disagree: false };
   out.collapsed_away = c.n.saturating_sub(c.missing).saturating_sub(obs.len());
+  if c.has_inner {
+    out.orders_disagree = group_order.iter().any(|g| {
+      let by_main: Vec<&String> = members[g][1..].iter().collect();
+      let mut by_inner = by_main.clone();
+      by_inner.sort_by_key(|id| ri.pos[*id]);
+      by_main != by_inner
+    });
+  }
 
   // invariants of the statement (hold for every limit); tie classes make them tolerant of a
   // different tie-break between two runs
@@ -728,6 +738,7 @@ fn check_rescored(reader: &IndexReader, world: &World, reqj: &Value, refs: &mut 
     total_groups_short: false,
     rescore_unordered: unordered,
     rescore_first_seen_differs: differs && full,
+    orders_disagree: false,
   })
 }
 
@@ -796,6 +807,110 @@ fn requests(n: usize) -> Vec<Value> {
     }
   }
   out
+}
+
+/// Sort keys of the pair family.
+fn sort_keys() -> Vec<Value> {
+  let mut v = Vec::new();
+  for f in ["_score", "n", "kw"] {
+    for o in if f == "_score" { ["desc", "asc"] } else { ["asc", "desc"] } {
+      v.push(json!({"field": f, "order": o}));
+    }
+  }
+  v
+}
+
+/// inner is a permutation of main's (field, order) pairs but not the same sequence
+fn is_nonidentical_permutation(main: &[Value], inner: &[Value]) -> bool {
+  if main.len() != inner.len() || main == inner {
+    return false;
+  }
+  let mut a: Vec<String> = main.iter().map(|x| x.to_string()).collect();
+  let mut b: Vec<String> = inner.iter().map(|x| x.to_string()).collect();
+  a.sort();
+  b.sort();
+  a == b
+}
+
+/// The sort-pair family: the request sort and the inner_hits sort both range over ALL ordered
+/// sequences of length 0..max_len over {_score, n, kw} x {asc, desc} (repeated keys included), so
+/// every relation between the two occurs: identical, permutation, prefix, one order flipped,
+/// unrelated. Other dimensions shrink with the total number of keys k = |main| + |inner|:
+///   k <= 2: from {0,1} x size {1,2,all} x limit {n,1,2};
+///   k = 3 : from {0,1} x size {1,2,all} at limit n, (0,all) at limits 1,2;
+///   k = 4 : (0,all) (1,1) (1,2) at limit n, (0,all) at limit 2;
+///   k >= 5: (0,all) (1,1) at limit n.
+/// An inner_hits without its own sort (length 0) is only combined with main sorts [] and
+/// [_score desc] (fallback sort undocumented otherwise). Returns (requests, skipped pairs).
+fn pair_requests(n: usize, max_len: usize) -> (Vec<Value>, usize) {
+  let plans = sequences(&sort_keys(), 0, max_len);
+  let default_main = vec![json!({"field": "_score", "order": "desc"})];
+  let mut out = Vec::new();
+  let mut skipped = 0;
+  for main in &plans {
+    for inner in &plans {
+      if inner.is_empty() && !(main.is_empty() || *main == default_main) {
+        skipped += 1;
+        continue;
+      }
+      let k = main.len() + inner.len();
+      let all_w: Vec<(usize, Option<usize>)> = vec![(0, None), (0, Some(1)), (0, Some(2)), (1, None), (1, Some(1)), (1, Some(2))];
+      let mut combos: Vec<(usize, Option<usize>, usize)> = Vec::new(); // from, size, limit
+      match k {
+        0..=2 => {
+          for l in [n, 1, 2] {
+            for (f, z) in &all_w {
+              combos.push((*f, *z, l));
+            }
+          }
+        }
+        3 => {
+          for (f, z) in &all_w {
+            combos.push((*f, *z, n));
+          }
+          combos.push((0, None, 1));
+          combos.push((0, None, 2));
+        }
+        4 => {
+          combos.extend([(0, None, n), (1, Some(1), n), (1, Some(2), n), (0, None, 2)]);
+        }
+        _ => {
+          combos.extend([(0, None, n), (1, Some(1), n)]);
+        }
+      }
+      let mut seen_l: HashSet<(usize, Option<usize>, usize)> = HashSet::new();
+      for (f, z, l) in combos {
+        if l > n || (l < n && l == 0) || !seen_l.insert((f, z, l)) {
+          continue;
+        }
+        let mut ih = json!({"from": f});
+        if !inner.is_empty() {
+          ih["sort"] = json!(inner);
+        }
+        if let Some(z) = z {
+          ih["size"] = json!(z);
+        }
+        out.push(json!({"query": "a", "sort": main, "collapse": {"field": "g", "inner_hits": ih}, "limit": l, "execution": "bm25"}));
+      }
+    }
+  }
+  (out, skipped)
+}
+
+/// Worlds of the pair family: some group has >= 3 members carrying >= 2 distinct `n` values and
+/// >= 2 distinct `kw` values (so the n-order and the kw-order of its members can disagree).
+fn pair_world(w: &World) -> bool {
+  let mut groups: BTreeMap<String, Vec<&Value>> = BTreeMap::new();
+  for d in &w.docs {
+    if let Some(g) = d.get("g").and_then(|v| v.as_str()) {
+      groups.entry(g.to_string()).or_default().push(d);
+    }
+  }
+  groups.values().any(|m| {
+    let ns: HashSet<String> = m.iter().filter_map(|d| d.get("n")).map(|v| v.to_string()).collect();
+    let ks: HashSet<String> = m.iter().filter_map(|d| d.get("kw")).map(|v| v.to_string()).collect();
+    m.len() >= 3 && ns.len() >= 2 && ks.len() >= 2
+  })
 }
 
 fn case_json(world: &World, r: &Value) -> Value {
@@ -873,7 +988,50 @@ pub fn run(ctx: &Ctx) -> i32 {
       }
     }
   }
+  // pair-family worlds (a world may also be in the base list; the two request families are disjoint
+  // runs): n = 3 one group, all variant sequences; n = 4 (quick, thorough) and n = 5 (thorough) with a
+  // group of >= 3, fixed variant patterns; layouts [n] and one split
+  let mut pair_worlds: Vec<World> = Vec::new();
+  {
+    let vseqs3 = sequences(&(0..nv).collect::<Vec<_>>(), 3, 3);
+    for vs in &vseqs3 {
+      for lay in [vec![3], vec![1, 2]] {
+        pair_worlds.push(mk_world(&[Some(0), Some(0), Some(0)], vs, &lay));
+      }
+    }
+    let big: Vec<usize> = if quick { vec![4] } else { vec![4, 5] };
+    for n in big {
+      for gs in group_seqs(n) {
+        if !(0..3u8).any(|l| gs.iter().filter(|x| **x == Some(l)).count() >= 3) {
+          continue;
+        }
+        // n = 4: all patterns of the tier; n = 5 (thorough): the first four patterns
+        let pats = patterns(!quick);
+        for p in pats.iter().take(if n == 4 { pats.len() } else { 4 }) {
+          for lay in [vec![n], vec![n / 2, n - n / 2]] {
+            pair_worlds.push(mk_world(&gs, &p[..n], &lay));
+          }
+        }
+      }
+    }
+    pair_worlds.retain(pair_world);
+  }
+  let max_len = if quick { 2 } else { 3 };
+  let mut pair_skipped = 0usize;
+  let pair_reqs_by_n: HashMap<usize, Vec<Value>> = (3..=5)
+    .map(|n| {
+      let (r, sk) = pair_requests(n, max_len);
+      pair_skipped = sk;
+      (n, r)
+    })
+    .collect();
+  let n_plans = sequences(&sort_keys(), 0, max_len).len();
+  let perm_pairs = {
+    let plans = sequences(&sort_keys(), 0, max_len);
+    plans.iter().map(|m| plans.iter().filter(|i| is_nonidentical_permutation(m, i)).count()).sum::<usize>()
+  };
   if std::env::var("C18_COUNTS").is_ok() {
+    println!("pair worlds {} pair requests(n=3) {} (n=4) {} plans {} perm pairs {} skipped pairs {}", pair_worlds.len(), pair_reqs_by_n[&3].len(), pair_reqs_by_n[&4].len(), n_plans, perm_pairs, pair_skipped);
     println!("worlds {} requests(n=4) {} requests(n=6) {}", worlds.len(), requests(4).len(), requests(6).len());
     return 0;
   }
@@ -892,13 +1050,43 @@ pub fn run(ctx: &Ctx) -> i32 {
   let sent_known = AtomicBool::new(false);
   let seg_topk_no_missing = AtomicU64::new(0);
   let seg_topk_witness: Mutex<Option<String>> = Mutex::new(None);
-  let deadline = if quick { 33.0 } else { 840.0 };
+  let deadline: f64 = std::env::var("VERIF_DEADLINE_S").ok().and_then(|v| v.parse().ok()).unwrap_or(if quick { 33.0 } else { 840.0 });
   let timed_out = AtomicBool::new(false);
   let worlds_done = AtomicU64::new(0);
   let reqs_by_n: HashMap<usize, Vec<Value>> = (1..=6).map(|n| (n, requests(n))).collect();
 
-  for chunk in worlds.chunks(2048) {
-    chunk.par_iter().for_each(|world| {
+  // per pair request: is the inner sort a non-identical permutation of the request sort?
+  let pair_perm_by_n: HashMap<usize, Vec<bool>> = pair_reqs_by_n
+    .iter()
+    .map(|(n, v)| {
+      let flags = v
+        .iter()
+        .map(|r| {
+          let m = r["sort"].as_array().cloned().unwrap_or_default();
+          let i = r["collapse"]["inner_hits"]["sort"].as_array().cloned().unwrap_or_default();
+          is_nonidentical_permutation(&m, &i)
+        })
+        .collect();
+      (*n, flags)
+    })
+    .collect();
+  let pair_cases = AtomicU64::new(0);
+  let pair_disagree = AtomicU64::new(0);
+  let perm_cases = AtomicU64::new(0);
+  let perm_disagree = AtomicU64::new(0);
+  // tasks: base family on the base worlds, then the pair family on the pair worlds (the pair worlds
+  // are interleaved early enough to be reached under a tight wall budget)
+  let mut tasks: Vec<(&World, bool)> = Vec::new();
+  {
+    let split = worlds.len().min(if quick { 1500 } else { worlds.len() / 8 });
+    tasks.extend(worlds[..split].iter().map(|w| (w, false)));
+    tasks.extend(pair_worlds.iter().map(|w| (w, true)));
+    tasks.extend(worlds[split..].iter().map(|w| (w, false)));
+  }
+
+  for chunk in tasks.chunks(2048) {
+    chunk.par_iter().for_each(|(world, pair_family)| {
+      let (world, pair_family) = (*world, *pair_family);
       if rep.elapsed_s() > deadline {
         timed_out.store(true, Ordering::Relaxed);
         return;
@@ -909,8 +1097,11 @@ pub fn run(ctx: &Ctx) -> i32 {
       let mut refs: HashMap<String, Ref> = HashMap::new();
       let mut local: HashSet<(usize, usize, usize)> = HashSet::new();
       let (mut ev, mut nt, mut fc, mut td, mut ts, mut rc, mut ru, mut rd) = (0u64, 0u64, 0u64, 0u64, 0u64, 0u64, 0u64, 0u64);
-      for r in &reqs_by_n[&n] {
+      let (mut pc, mut pd, mut qc, mut qd) = (0u64, 0u64, 0u64, 0u64);
+      let reqs: &Vec<Value> = if pair_family { &pair_reqs_by_n[&n] } else { &reqs_by_n[&n] };
+      for (ri_, r) in reqs.iter().enumerate() {
         ev += 1;
+        let is_perm = pair_family && pair_perm_by_n[&n][ri_];
         match check(&reader, world, r, &mut refs) {
           Ok(o) => {
             if o.collapsed_away > 0 && o.inner_total > 0 {
@@ -921,6 +1112,18 @@ pub fn run(ctx: &Ctx) -> i32 {
             }
             if r["limit"].as_u64().unwrap_or(0) as usize >= n {
               fc += 1;
+            }
+            if pair_family {
+              pc += 1;
+              if o.orders_disagree {
+                pd += 1;
+              }
+              if is_perm {
+                qc += 1;
+                if o.orders_disagree {
+                  qd += 1;
+                }
+              }
             }
             if r.get("rescore").is_some() {
               rc += 1;
@@ -983,6 +1186,10 @@ pub fn run(ctx: &Ctx) -> i32 {
       resc_cases.fetch_add(rc, Ordering::Relaxed);
       resc_unordered.fetch_add(ru, Ordering::Relaxed);
       resc_differs.fetch_add(rd, Ordering::Relaxed);
+      pair_cases.fetch_add(pc, Ordering::Relaxed);
+      pair_disagree.fetch_add(pd, Ordering::Relaxed);
+      perm_cases.fetch_add(qc, Ordering::Relaxed);
+      perm_disagree.fetch_add(qd, Ordering::Relaxed);
       worlds_done.fetch_add(1, Ordering::Relaxed);
       let mut o = outcomes.lock();
       for x in local {
@@ -1028,7 +1235,18 @@ pub fn run(ctx: &Ctx) -> i32 {
   let cov = vcore::cov! {
     "distinct_nontrivial" => nontrivial.load(Ordering::Relaxed),
     "rule" => "cases = world x collapsed request; a case is non-trivial when collapse removed at least one matching document from the top-level hits and at least one inner_hits list is non-empty. Worlds: every canonical assignment of <= 3 group values (sizes 1-4) or no value to n documents x document variants (2 score levels x n in {1,2,missing} x kw in {p,q,missing}) x 1-2 segment layouts; all 4^n variant sequences for the small n, 8 (quick) / 17 (thorough) fixed tie-prone variant patterns for the larger n. Requests: 4 main sorts x (no inner_hits | 3 inner sorts [+ inner_hits without sort under the default main sort] x from {absent,1,2} x size {absent,0,1,2}) x limit {n,1,2}, query `a` (matches every document), execution bm25.",
-    "worlds" => worlds.len(),
+    "worlds" => worlds.len() + pair_worlds.len(),
+    "sort_pair_family" => json!({
+      "rule": format!("request sort and inner_hits sort each range over all {} ordered sequences of length 0..{} over {{_score,n,kw}} x {{asc,desc}} (every pair; {} pairs with an inner_hits without own sort under a non-default request sort left out); windows/limits reduced with the total key count k: k<=2 from{{0,1}} x size{{1,2,all}} x limit{{n,1,2}}; k=3 the six windows at limit n + (0,all) at limits 1,2; k=4 (0,all),(1,1),(1,2) at limit n + (0,all) at limit 2; k>=5 (0,all),(1,1) at limit n. Worlds: a group of >= 3 members with >= 2 distinct n and >= 2 distinct kw values; n=3 all variant sequences, n=4 the tier's fixed patterns{}; layouts [n] and one split", n_plans, max_len, pair_skipped, if quick { "" } else { ", n=5 four patterns" }),
+      "worlds": pair_worlds.len(),
+      "requests_per_world_n3": pair_reqs_by_n[&3].len(),
+      "requests_per_world_n4": pair_reqs_by_n[&4].len(),
+      "cases": pair_cases.load(Ordering::Relaxed),
+      "cases_where_request_sort_and_inner_sort_rank_a_groups_other_members_differently": pair_disagree.load(Ordering::Relaxed),
+      "distinct_pairs_inner_is_nonidentical_permutation_of_main": perm_pairs,
+      "cases_inner_is_nonidentical_permutation_of_main": perm_cases.load(Ordering::Relaxed),
+      "of_those_the_two_orders_disagree_inside_a_group": perm_disagree.load(Ordering::Relaxed),
+    }),
     "worlds_done" => worlds_done.load(Ordering::Relaxed),
     "doc_counts_all_variant_sequences" => full_n,
     "doc_counts_pattern_variants" => pattern_n,
